@@ -23,6 +23,7 @@ VERUS_TOOLCHAIN = "1.98.1-x86_64-unknown-linux-gnu"
 # messages that mean "an obligation was not discharged" (anything else at level=error is a
 # front-end / tool problem => undecided, never an alarm)
 FAIL_PREFIXES = (
+    "expression simplifies to false",      # `assert(..) by (compute)` evaluated to false: refuted, not unknown
     "postcondition not satisfied",
     "precondition not satisfied",
     "precondition not met",
@@ -264,7 +265,20 @@ def parse(res, stdout, stderr, anchors, woven_dir=None):
         res.errors = vr.get("errors", 0)
         res.raw_ok = not vr.get("encountered-error", True)
         if vr.get("encountered-vir-error"):
-            res.undecided.append({"reason": "verus front-end (VIR) error", "rendered": ""})
+            # a refuted `by (compute)` assertion is reported through the same channel as front-end
+            # rejections; it is a failed obligation (handled below), everything else is undecided
+            msgs = []
+            for line in stderr.split("\n"):
+                if line.strip().startswith("{"):
+                    try:
+                        d = json.loads(line)
+                    except Exception:
+                        continue
+                    if d.get("level") == "error" and not d.get("message", "").startswith("aborting due to"):
+                        msgs.append(d.get("message", ""))
+            others = [m for m in msgs if not m.lower().startswith(FAIL_PREFIXES) and not any(mk in m for mk in UNDECIDED_MARKERS)]
+            if others or not msgs:
+                res.undecided.append({"reason": "verus front-end (VIR) error", "rendered": ""})
         smt = js.get("times-ms", {}).get("smt", {})
         res.smt_ms = smt.get("total", 0)
         for m in smt.get("smt-run-module-times", []):
@@ -297,8 +311,15 @@ def parse(res, stdout, stderr, anchors, woven_dir=None):
                     fn = locate_fn(anchors, s["file_name"], s["line_start"])
                     if fn:
                         break
-            res.undecided.append({"reason": "resource limit: " + msg + (" in " + fn["key"] if fn else ""),
-                                  "rendered": rendered})
+            u = {"reason": "resource limit: " + msg + (" in " + fn["key"] if fn else ""), "rendered": rendered}
+            if fn:
+                # only the properties whose obligations live in that function are left undecided
+                tg = set(fn.get("tags") or [])
+                for c in anchors["clauses"]:
+                    if c["owner"] == fn["key"]:
+                        tg.update(t for t in c["tags"] if t != "KF")
+                u["tags"] = sorted(tg) or ["C01"]
+            res.undecided.append(u)
             continue
         if d.get("code") is not None or not msg.lower().startswith(FAIL_PREFIXES):
             res.undecided.append({"reason": "front-end: " + msg, "rendered": rendered})
@@ -363,7 +384,7 @@ def parse(res, stdout, stderr, anchors, woven_dir=None):
             # modular verification: the failing function calls a function that did not exist when the
             # contracts were written and therefore has no postcondition - a missing contract, not a verdict
             res.undecided.append({"reason": "%s: obligation %s not discharged, but the function is or calls the new function `%s`, which has no contract" % (fkey, name, nf),
-                                  "rendered": rendered})
+                                  "rendered": rendered, "tags": tags})
             continue
         res.failures.append({"obligation": name, "fn": fkey, "clause": clause, "message": msg, "tags": tags,
                              "file": pfile, "line": pline, "rendered": rendered})
